@@ -155,8 +155,9 @@ CHECKS["C12"] = {
                     "thorough": ["nvaa=0,1"] + ["nvaa=2;q.tc.digits=%d;v.tc.digits#0=%d" % (a, b) for a in _D4 for b in _D4] +
                                 ["nvaa=3;v.ec.digits=1,2;q.ec.digits=1,2;v.tc.digits=1,2,3;q.tc.digits=%d;v.tc.digits#0=%d" % (a, b) for a in (1, 2, 3) for b in (1, 2, 3)]}},
         {"pkg": "./pkg/db", "entry": "VerifC12_GovBatch", "reach": ["some", "none"], "opts": {"exactfmt": "true"},
-         "shards": {"quick": ["nvaa=0,1"] + ["nvaa=2;gov.ec.digits=%d;v.tc.digits#0=%d" % (a, b) for a in _D4 for b in _D4],
-                    "thorough": ["nvaa=0,1"] + ["nvaa=2;gov.ec.digits=%d;v.tc.digits#0=%d" % (a, b) for a in _D4 for b in _D4]}},
+         "shards": {"quick": ["nvaa=0,1"] + ["nvaa=2;gov.ec.digits=%d;v.tc.digits#0=%d;v.ec.digits=1,2;v.tc.digits#1=1,2;nreq=%d" % (a, b, r) for a in (1, 2) for b in (1, 2) for r in (1, 2)],
+                    "thorough": ["nvaa=0,1"] + ["nvaa=2;gov.ec.digits=%d;v.tc.digits#0=%d;nreq=%d" % (a, b, r) for a in _D4 for b in _D4 for r in (1, 2)]},
+         "timeout": {"quick": 2400, "thorough": 30000}},
     ],
     "bounds": {"quick": {"key lemmas": "two fully symbolic identifiers: every 16-bit emitter/target chain id (all five decimal digit counts), every 32-byte address, sequences < 10",
                          "store": "0..2 stored VAAs with symbolic ids (chain ids from the digit classes 1,2,3,5 digits, address bytes 0 and 31 symbolic, sequence 0..3, ids may coincide) + one symbolic query id; lookup, gap scan and governance batch on the real db code over a key-value model of badger",
